@@ -93,7 +93,8 @@ ASSUMPTIONS = [
     'be one that applies to the sequence (union over all defects present, generous)',
     'DONT_CARE (only in the must-accept direction; acceptance still implies the predicate): several signatures '
     'in one run (more than one NEWSIG / result keyword / VALIDSIG / TRUST_ line, or NEWSIG after a per-signature '
-    'line), and predicate satisfied but NO_PUBKEY/KEYEXPIRED/KEYREVOKED/FAILURE/NODATA also reported (real gpg never '
+    'line), predicate satisfied but GOODSIG, VALIDSIG, TRUST_ not in gpg\'s order (an implementation that binds the '
+    'lines of one signature by position is defensible), and predicate satisfied but NO_PUBKEY/KEYEXPIRED/KEYREVOKED/FAILURE/NODATA also reported (real gpg never '
     'does that with exit 0; both readings defensible); `verify -P` without -s: exit status not judged',
     'malformed VALIDSIG lines are not generated; one well-formed representative line per keyword; status lines '
     'only on stdout, LF-terminated',
@@ -165,6 +166,7 @@ def seq_facts(seq):
 
 
 DC_MULTI = 'several signatures reported in one run'
+DC_ORDER = 'predicate met but GOODSIG / VALIDSIG / TRUST_ not in the order gpg reports them'
 DC_CONTRA = 'predicate met but NO_PUBKEY/KEYEXPIRED/KEYREVOKED/FAILURE/NODATA also reported'
 
 
@@ -173,6 +175,8 @@ def expect(f, ex):
     if f.cond and ex == 0:
         if f.multi:
             return 'dc', DC_MULTI
+        if not f.gpg_order:
+            return 'dc', DC_ORDER
         if f.contra:
             return 'dc', DC_CONTRA
         return 'accept', None
@@ -474,7 +478,7 @@ def judge_lib(kind, info, o, f, ex):
                 out.append(({'check': 'sufficient_validity_rejected', 'trust': f.best_trust},
                             f'a good, valid signature by a key of validity {f.best_trust} is rejected as untrusted'))
             else:
-                out.append(({'check': 'valid_signature_rejected', 'got': o.exc, 'gpg_order': f.gpg_order},
+                out.append(({'check': 'valid_signature_rejected', 'got': o.exc},
                             f'good+valid+sufficiently trusted signature rejected with {o.exc}'))
         elif kind == 'reject' and o.exc not in info:
             out.append(({'check': 'wrong_failure_class', 'got': o.exc, 'applicable': first_applicable(info)},
@@ -502,7 +506,7 @@ def judge_cli(kind, o, verify_on, require):
         return out
     if kind == 'accept':
         if o.exit != 0:
-            out.append(({'check': 'valid_signature_rejected', 'got': 'exit', 'gpg_order': True},
+            out.append(({'check': 'valid_signature_rejected', 'got': 'exit'},
                         f'CLI exited {o.exit} ({o.detail}) on an acceptable signature'))
         elif not o.reported:
             out.append(({'check': 'accepted_but_not_reported_signed'}, 'CLI exited 0 without reporting the signature'))
@@ -959,6 +963,8 @@ def b1_config(state, ot, scratch, stats=None):
                 o = fn(env, text)
                 calls = rec.log[mark:]
                 vs, mismatch = b_judge(expected, calls, o, fpr, {'state': state, 'ot': ot})
+                if mismatch and check_homes(calls, home, None):
+                    mismatch = None     # gpg looked at another keyring: reported as gnupghome_not_forced below
                 seq, ex, unknown, _r = real_facts(calls)
                 for sig, t in vs:
                     viols.append((sig, case, f'{sig["check"]}: [{o.iface}] key state {state}, owner-trust {OT_NAME[ot]}, '
@@ -1045,7 +1051,11 @@ def b1cli_config(state, flags, scratch, stats=None):
     if verify_on and seq is not None:
         k2, _i = expect(seq_facts(seq), ex)
         if k2 != kind:
-            mismatch = f'B1cli {state}: configuration expects {kind}, predicate says {k2} on {" ".join(names(seq))} exit {ex}'
+            hv = cli_homes_check(calls, tmp, None)
+            vs = hv                 # gpg's report contradicts the configuration: not the CLI's fault
+            if not hv:
+                mismatch = (f'B1cli {state}: configuration expects {kind}, predicate says {k2} on '
+                            f'{" ".join(names(seq))} exit {ex}')
     # root cause shared with the library layer: -K imports at ultimate trust, so no trust-level sigs here
     viols = [(sig, case, f'{sig["check"]}: [{o.iface} -K -R] key state {state}, gpg said '
                          f'{" ".join(names(seq or ()))} exit {ex}; CLI {o.label()} ({o.detail}): {t}') for sig, t in vs]
@@ -1248,7 +1258,7 @@ B = {'env': None, 'home': None, 'bases': None, 'parent': None}
 B3_BODIES = (
     'TIMESTAMP 2017-10-22T18:06:41Z\nDATA {n} 0 SHA1 da39a3ee5e6b4b0d3255bfef95601890afd80709 \nIGNORE l-c\t\n',
 )
-B3_NAMES = ('f', 'ab', 'q.x')
+B3_NAMES = ('abc', 'a_b', 'q.x')     # equal lengths: the position space must not depend on the seed
 MUT_KINDS = ('xor01', 'xor20', 'delete', 'duplicate')
 B3_CHUNK = 6
 
@@ -1299,9 +1309,20 @@ def _cleanup_parent():
             _kill_agents(B['home'])
 
 
+def _decoy_home(under):
+    """Whatever gemato does wrong, a gpg it starts WITHOUT forcing GNUPGHOME must land in scratch, never in the
+    real ~/.gnupg: the process-wide GNUPGHOME points at an empty directory below the runner's scratch."""
+    d = os.path.join(under, 'decoy-user-gnupghome')
+    os.makedirs(d, mode=0o700, exist_ok=True)
+    os.chmod(d, 0o700)
+    os.environ['GNUPGHOME'] = d
+    return d
+
+
 def setup(tier, seed, base):
     M = material()
     B['parent'] = os.getpid()
+    _decoy_home(base)
     env = _iso_env(base)
     B['env'], B['home'] = env, env.home
     atexit.register(_cleanup_parent)
@@ -1312,8 +1333,11 @@ def setup(tier, seed, base):
             bases.append(('signed-here', _clearsign(env.home, tmpl.format(n=B3_NAMES[seed % len(B3_NAMES)]))))
         if tier == 'thorough':
             bases.append(('suite-fixture', M['texts']['SIGNED_MANIFEST'].lstrip('\n')))
-        with io.StringIO(bases[0][1]) as fh:       # settle the trustdb single-threaded before workers share the home
-            env.verify_file(fh)
+        try:                                      # settle the trustdb single-threaded before workers share the home
+            with io.StringIO(bases[0][1]) as fh:
+                env.verify_file(fh)
+        except gx.GematoException:
+            pass                                  # judged by the B3 identity case, not here
     finally:
         _kill_agents(env.home)                    # the agent was only needed for signing
     B['bases'] = bases
@@ -1378,7 +1402,7 @@ def b3_run(spec, tier, seed, scratch, stats):
         if o.accepted:
             stats.counters['B3_identity_accepted'] += 1
         else:
-            _emit(stats, {'check': 'valid_signature_rejected', 'got': o.exc, 'gpg_order': True},
+            _emit(stats, {'check': 'valid_signature_rejected', 'got': o.exc},
                   {'part': 'B3', 'text': text, 'pos': -1, 'kind': 'identity', 'base': name},
                   f'valid_signature_rejected: unmutated signed Manifest {name} rejected with {o.exc}')
 
@@ -1391,7 +1415,7 @@ def b3_replay(case, scratch):
         if case['kind'] == 'identity':
             o = obs_verify_file(env, case['text'])
             return ([] if o.accepted else
-                    [{'sig': {'check': 'valid_signature_rejected', 'got': o.exc, 'gpg_order': True}, 'case': case,
+                    [{'sig': {'check': 'valid_signature_rejected', 'got': o.exc}, 'case': case,
                       'message': f'valid_signature_rejected: unmutated signed Manifest rejected with {o.exc}'}])
         _l, viols, _c, _s = b3_check(env, case['base'], case['text'], case['pos'], case['kind'])
     finally:
@@ -1405,6 +1429,8 @@ def worker_init(tier, seed, scratch):
     # argparse asks for the terminal size once per option of every sub-parser gemato.cli.main builds
     os.environ.setdefault('COLUMNS', '80')
     os.environ.setdefault('LINES', '24')
+    if B['bases'] is None:          # stand-alone replay: setup() did not run in a parent
+        _decoy_home(scratch)
 
 
 def shards(tier, seed):
